@@ -138,6 +138,11 @@ let run_case (line : string) : string =
       let a = parse_value t in
       if M.is_truthy a then "b1" else "b0"
   | "echo" -> string_of_value (parse_value t)
+  | "wfcode" ->
+      (* the proved checker of Spec/WfCode.v on a code block *)
+      (match parse_value t with
+       | M.VCode c -> if M.wf_code (M.code_depth c) c then "b1" else "b0"
+       | _ -> raise (Parse_error "wfcode: code"))
   | "lex" -> let tk = next t in lex_case (decode_src (rest tk))
   | "compile" ->
       let src = decode_src (rest (next t)) in
